@@ -392,3 +392,45 @@ def retry_guard_contract():
     c.region_name = "retry guard"
     c.live_ins = ("Fisher_diag",)
     return c
+
+
+# ------------------------------------------------------------------ which Hessian goes into the Hessian file (C05, C07)
+def hessian_source_obligations(fnode):
+    """test_all_Fisher.convert_params writes the upper triangle of a Hessian into `deriv` (what match.main later reads as THE Fisher matrix of the unique function) in three
+    places: from the first Hessian, and in the two retry branches from one of the re-computed ones.  Structural data-flow obligation per retry branch: the matrix written is
+    the one whose diagonal became Fisher_diag (the curvature the unique function's own code length is computed from):
+        Fisher_array is built from the matrices of a list L (`for mat in L`),  Fisher_diag = ...Fisher_array[IDX]...,  and the writer reads  L[IDX][i, i:]  -- same list, same index."""
+    if fnode.name != "convert_params":
+        return []
+    out = []
+    src_list = None
+    for n in ast.walk(fnode):
+        if isinstance(n, ast.Assign) and len(n.targets) == 1 and ast.unparse(n.targets[0]) == "Fisher_array":
+            for c in ast.walk(n.value):
+                if isinstance(c, ast.ListComp) and len(c.generators) == 1 and isinstance(c.generators[0].iter, ast.Name):
+                    src_list = c.generators[0].iter.id
+    if src_list is None:
+        return []                   # the names this analysis is keyed on are not the code's: nothing known
+    # blocks that assign Fisher_diag from Fisher_array[IDX] and then write deriv from <list>[IDX2][i, i:]
+    for blk in ast.walk(fnode):
+        body = getattr(blk, "body", None)
+        if not isinstance(body, list):
+            continue
+        for bl in [body, getattr(blk, "orelse", [])]:
+            idx = None
+            for s in bl:
+                if isinstance(s, ast.Assign) and ast.unparse(s.targets[0]) == "Fisher_diag":
+                    for c in ast.walk(s.value):
+                        if isinstance(c, ast.Subscript) and isinstance(c.value, ast.Name) and c.value.id == "Fisher_array":
+                            idx = ast.unparse(c.slice)
+                if idx is not None and isinstance(s, ast.For):
+                    for w in ast.walk(s):
+                        if isinstance(w, ast.Assign) and isinstance(w.targets[0], ast.Subscript) and ast.unparse(w.targets[0].value) == "deriv":
+                            v = w.value
+                            ok = False
+                            what = ast.unparse(v)
+                            if isinstance(v, ast.Subscript) and isinstance(v.value, ast.Subscript) and isinstance(v.value.value, ast.Name):
+                                ok = v.value.value.id == src_list and ast.unparse(v.value.slice) == idx
+                            out.append(("line %d: the Hessian written to the file is the one whose diagonal became Fisher_diag (`%s`; Fisher_array comes from `%s`, index `%s`)" % (
+                                w.lineno, what, src_list, idx), ok, w.lineno))
+    return out
